@@ -38,10 +38,12 @@ def model_check(ctx):
     ctx.mc("MC_ReadOnly", "MC_ReadOnly.cfg" if ctx.thorough else "MC_ReadOnly_q.cfg")
     ctx.mc_expect("MC_ReadOnly", "DEV_ReadOnly_1.cfg", "PropFrame")
     ctx.mc_expect("MC_ReadOnly", "DEV_ReadOnly_2.cfg", "PropFrame")
+    ctx.mc_expect("MC_ReadOnly", "DEV_ReadOnly_3.cfg", "PropFrame")
 
 
 OPS = ["occupancy", "state", "scenario_queries", "lanelet_lookup", "lanelet_geometry", "light", "is_reached",
-       "goal_reached", "eq", "hash", "deepcopy", "pickle", "draw", "draw_render", "write_xml", "write_pb"]
+       "goal_reached", "eq", "hash", "deepcopy", "pickle", "draw", "draw_render", "write_xml", "write_pb",
+       "edit_deepcopy", "edit_pickle", "edit_network_copy", "edit_network_from_list"]
 FEATURES = ["custom_no_orientation", "point_mass", "goal_defaultdict", "goal_partial_lanelets", "set_based", "uncertain",
             "defaults", "environment"]
 
@@ -322,6 +324,29 @@ def do_op(op, sc, pps):
     elif op == "pickle":
         pickle.loads(pickle.dumps(sc))
         pickle.loads(pickle.dumps(pps))
+    elif op in ("edit_deepcopy", "edit_pickle"):                # copy the scenario, then edit the COPY
+        sc2 = copy.deepcopy(sc) if op == "edit_deepcopy" else pickle.loads(pickle.dumps(sc))
+        pps2 = copy.deepcopy(pps) if op == "edit_deepcopy" else pickle.loads(pickle.dumps(pps))
+        sc2.translate_rotate(np.array([3.0, -2.0]), 0.5)
+        pps2.translate_rotate(np.array([3.0, -2.0]), 0.5)
+        _edit_network(sc2.lanelet_network)
+        sc2.assign_obstacles_to_lanelets()
+        for o in list(sc2.obstacles)[:2]:
+            sc2.remove_obstacle(o)
+        for o in sc2.dynamic_obstacles[:1]:
+            o.update_initial_state(o.state_at_time(o.initial_state.time_step + 1) if o.prediction is not None
+                                   and hasattr(o.prediction, "trajectory") else o.initial_state)
+    elif op in ("edit_network_copy", "edit_network_from_list"):  # copy the lanelet network, then edit the COPY
+        from commonroad.scenario.lanelet import LaneletNetwork
+        if op == "edit_network_copy":
+            n2 = LaneletNetwork.create_from_lanelet_network(net)
+            n3 = LaneletNetwork.create_from_lanelet_network(net, shape_input=Rectangle(30.0, 30.0, np.array([5.0, 1.0])))
+        else:
+            n2 = LaneletNetwork.create_from_lanelet_list(net.lanelets, cleanup_ids=False)
+            n3 = LaneletNetwork.create_from_lanelet_list(net.lanelets, cleanup_ids=True)
+        for n in (n2, n3):
+            n.translate_rotate(np.array([3.0, -2.0]), 0.5)
+            _edit_network(n)
     elif op in ("draw", "draw_render"):
         import matplotlib
         matplotlib.use("Agg")
@@ -343,6 +368,25 @@ def do_op(op, sc, pps):
         os.remove(path)
     else:
         raise tlc.MachineryError("unknown op " + op)
+
+
+def _edit_network(n):
+    """Public edits of a COPIED network that reach the lanelets' sub-objects (reference sets, stop line, registries)."""
+    import numpy as np
+    from crv import gamma as G
+    la = n.lanelets[0]
+    n.add_traffic_sign(G.sign(931, (1.0, 1.0)), {la.lanelet_id})
+    n.add_traffic_light(G.light(941, (1.0, 2.0)), {la.lanelet_id})
+    for s in list(n.traffic_signs):
+        if s.traffic_sign_id != 931:
+            n.remove_traffic_sign(s.traffic_sign_id)
+    for t in list(n.traffic_lights):
+        if t.traffic_light_id != 941:
+            n.remove_traffic_light(t.traffic_light_id)
+    la.add_static_obstacle_to_lanelet(777)
+    la.add_dynamic_obstacle_to_lanelet(778, 0)
+    if len(n.lanelets) > 1:
+        n.remove_lanelet(n.lanelets[-1].lanelet_id)
 
 
 def execute(case):
